@@ -18,7 +18,7 @@ mtbl/merger.c mtbl/reader.c mtbl/sorter.c mtbl/source.c mtbl/threadpool.c mtbl/m
 mtbl/writer.c""".split()
 
 SEAMS = {
-    "mtbl/writer.c": ["-Dwrite=vs_write", "-Dclose=vs_close"],
+    "mtbl/writer.c": ["-Dwrite=vs_write", "-Dwritev=vs_writev", "-Dpwrite=vs_pwrite", "-Dclose=vs_close"],
     "mtbl/fileset.c": ["-Dclock_gettime=vs_clock_gettime"],
     "mtbl/sorter.c": ["-Dmkstemp=vs_mkstemp", "-Dclose=vs_close"],
     "mtbl/reader.c": ["-Dmmap=vs_mmap", "-Dmunmap=vs_munmap", "-Dclose=vs_close"],
